@@ -205,6 +205,9 @@ def run_edges(ctx, cid):
     W = Walker(ctx, cid); cal = W.cal; lo, hi = W.lo, W.hi
     W.segment(lo, min(hi, lo + 400)); W.segment(max(lo, hi - 400), hi)
     ctx.distinct(2 * 401)
+    if lo < -450 and hi > 450:
+        W.segment(-400, 400, every_cross=37)      # around day 0 of the shared day-number line: sign branches of the day arithmetic
+        ctx.distinct(801)
     # advertised-range coherence with the internal bounds when they exist
     imin, imax = getattr(cal, "_min_days", None), getattr(cal, "_max_days", None)
     ctx.ev()
